@@ -1,6 +1,7 @@
 package main
 
 import (
+	"bytes"
 	"encoding/json"
 	"math/rand"
 	"strings"
@@ -147,6 +148,39 @@ func c12Record(tier string, seed int64, emit func(interface{})) {
 				k = rng.Intn(len(s))
 			}
 			call("big", s[k:]+s[:k])
+		}
+	}
+	// sparse rings: a few thousand letters, nearly all one large letter, the smallest letter present only two to
+	// four times with neighbourhoods that differ late; cut right before and right after every occurrence (so that
+	// the smallest letter opens or closes the linear text) and at random
+	for i := 0; i < nBig; i++ {
+		g++
+		n := 2001 + rng.Intn(7000)
+		fill := "bcd"[rng.Intn(3)]
+		b := bytes.Repeat([]byte{fill}, n)
+		var at []int
+		for k := 2 + rng.Intn(3); k > 0; k-- {
+			p := rng.Intn(n)
+			if k == 1 && rng.Intn(2) == 0 {
+				p = n - 1
+			}
+			b[p] = 'a'
+			at = append(at, p)
+			if q := (p + 1 + rng.Intn(3)) % n; b[q] != 'a' && rng.Intn(2) == 0 {
+				b[q] = "bcd"[rng.Intn(3)] // the letters right behind an occurrence decide between the candidates
+			}
+		}
+		s := string(b)
+		ins := []string{s}
+		for _, p := range at {
+			for _, k := range []int{p, (p + 1) % n} {
+				ins = append(ins, s[k:]+s[:k])
+			}
+		}
+		k := rng.Intn(n)
+		ins = append(ins, s[k:]+s[:k])
+		for _, in := range ins {
+			call("big", in)
 		}
 	}
 	// long ties: rings well beyond 2^16 letters in which two candidate rotations agree for more than 2^16 letters
